@@ -87,8 +87,9 @@ func Harness_C13_attached() {
 // AuthnRequestsSigned exactly when a signature method is configured.
 func Harness_C13_metadata() {
 	sp := verifSP("sp")
-	sp.Key = verifTestSigner(0, 0)
-	sp.Certificate = verifTestCert(0, 0)
+	kind := verifChoose("key.kind", 2) // RSA or ECDSA
+	sp.Key = verifTestSigner(kind, 0)
+	sp.Certificate = verifTestCert(kind, 0)
 	sp.SignatureMethod = verifNondetString("sp.SignatureMethod")
 	now := verifNondetTimeMs("now")
 	TimeNow = func() time.Time { return now }
@@ -111,7 +112,7 @@ func Harness_C13_metadata() {
 			certs := d.KeyDescriptors[i].KeyInfo.X509Data.X509Certificates
 			verifAssert(len(certs) == 1, "C13/metadata/signing-descriptor-has-certificate")
 			if len(certs) == 1 {
-				verifAssert(certs[0].Data == verifTestCertB64(0, 0), "C13/metadata/signing-certificate-is-sp-certificate")
+				verifAssert(certs[0].Data == verifTestCertB64(kind, 0), "C13/metadata/signing-certificate-is-sp-certificate")
 			}
 		}
 	}
